@@ -23,6 +23,18 @@ def sh(cmd, **kw):
     return subprocess.run(cmd, shell=True, capture_output=True, text=True, **kw)
 
 
+def _load(path):
+    for _ in range(20):
+        try:
+            with open(path) as f:
+                return json.load(f)
+        except FileNotFoundError:
+            return {}
+        except json.JSONDecodeError:
+            time.sleep(0.2)
+    return {}
+
+
 def clean():
     return sh(f"git -C {REPO} status --porcelain -- edgegraph").stdout.strip() == ""
 
@@ -52,7 +64,7 @@ def main():
             return 2
     names = args or sorted(d for d in os.listdir(SEEDED) if os.path.isdir(os.path.join(SEEDED, d)))
     results_path = os.path.join(SEEDED, "results.json")
-    results = json.load(open(results_path)) if os.path.exists(results_path) else {}
+    results = _load(results_path)
     props = [json.loads(l)["id"] for l in open("/verif/properties.jsonl")]
     for name in names:
         d = os.path.join(SEEDED, name)
@@ -77,10 +89,13 @@ def main():
             results[name] = res
         finally:
             sh(f"git -C {repo} checkout -- .")
-        cur = json.load(open(results_path)) if os.path.exists(results_path) else {}
+        cur = _load(results_path)
         cur[name] = results[name]
-        json.dump(cur, open(results_path, "w"), indent=1, sort_keys=True)
-    results = json.load(open(results_path)) if os.path.exists(results_path) else results
+        tmp = results_path + f".{os.getpid()}.tmp"         # several runners may share the file: replace it atomically
+        with open(tmp, "w") as f:
+            json.dump(cur, f, indent=1, sort_keys=True)
+        os.replace(tmp, results_path)
+    results = _load(results_path) or results
     if repo == SCRATCH:
         sh(f"git -C {REPO} worktree remove --force {SCRATCH}")
     write_md(results)
